@@ -119,6 +119,11 @@ func VerifC16Index() {
 	}
 	vAssert("tx-index-is-first-match", got == want)
 	vAssert("tx-index-cache-agrees", again == got)
+	// the stream grows: a transition that arrives after an early (missing) lookup must be found
+	if want == -1 {
+		c.MsgTxs = append(c.MsgTxs, &dbg.DbgMsgTx{ID: id})
+		vAssert("tx-index-after-late-arrival", c.TxIndex(id) == l)
+	}
 	// filter index
 	nf := vInt(0, 3)
 	for i := 0; i < nf; i++ {
